@@ -7,6 +7,7 @@ import Mathlib.Tactic.Ring
 import Mathlib.Tactic.Linarith
 import Mathlib.Tactic.NormNum
 import Mathlib.Data.Nat.ModEq
+import Mathlib.Data.Nat.Sqrt
 namespace Bee2V.C05.Etc
 open Bee2V.C05
 
@@ -317,15 +318,14 @@ theorem zzPowerModW_red (w a b mod : Nat) (hm0 : mod ≠ 0) (ha : a < mod) (hb :
     have hlt : ∀ k, b / 2 ^ k % 2 ^ w = b / 2 ^ k := fun k =>
       Nat.mod_eq_of_lt (Nat.lt_of_le_of_lt (Nat.div_le_self _ _) hb)
     simp only [hlt]
-    generalize htbl : (fun i : Nat => match i with
-      | 0 => a | 1 => a ^ 3 % mod | 2 => a ^ 5 % mod | _ => a ^ 7 % mod) = tbl
+    generalize htbl : powTbl4 a (a ^ 3 % mod) (a ^ 5 % mod) (a ^ 7 % mod) = tbl
     have htb : ∀ j, j < 2 ^ (3 - 1) → tbl j = (fun k => a ^ k % mod) (2 * j + 1) := by
       intro j hj
       subst htbl
       have : j = 0 ∨ j = 1 ∨ j = 2 ∨ j = 3 := by
         have : j < 4 := hj
         omega
-      rcases this with rfl | rfl | rfl | rfl <;> simp [ham]
+      rcases this with rfl | rfl | rfl | rfl <;> simp [powTbl4, ham]
     rw [zzPowerModWLoop_eq w b mod tbl hb]
     have hmul : ∀ i j, mulW w mod ((fun k => a ^ k % mod) i) ((fun k => a ^ k % mod) j)
         = (fun k => a ^ k % mod) (i + j) := fun i j => mulW_pw hm hm0 i j
@@ -344,14 +344,227 @@ theorem zzPowerModW_red (w a b mod : Nat) (hm0 : mod ≠ 0) (ha : a < mod) (hb :
     obtain ⟨g1, g2, g3⟩ := slideStrip_spec b p _ _ _ hI (Nat.le_refl _)
     generalize slideStrip (min p 3) (b / 2 ^ (p - min p 3) % 2 ^ min p 3) (min p 3) = r at *
     obtain ⟨b1, b2⟩ := slideInv_bounds g1 (Nat.le_trans g3 (Nat.min_le_right _ _)) (by omega)
-    have key := congrFun htbl (r.1 / 2)
-    beta_reduce at key
-    rw [key, htb _ b2]
+    rw [htb _ b2]
     have hodd : 2 * (r.1 / 2) + 1 = r.1 := by omega
     have e := g1.2.2.2
     rw [t1, Nat.zero_mul, Nat.zero_add] at e
     rw [hodd, ← e]
     exact qrPowerLoop_spec (mulW w mod) (fun x => mulW w mod x x) (fun k => a ^ k % mod) hmul hsqr
       tbl b 3 (by omega) htb p (p - r.2) (by omega)
+
+/-! ## zzSqrt -/
+
+theorem bitSizeV_lt (x : Nat) : x < 2 ^ bitSizeV x := by
+  unfold bitSizeV
+  split_ifs with h
+  · subst h; simp
+  · exact Nat.lt_log2_self
+
+theorem bitSizeV_ge (x : Nat) (hx : x ≠ 0) : 1 ≤ bitSizeV x ∧ 2 ^ (bitSizeV x - 1) ≤ x := by
+  unfold bitSizeV
+  rw [if_neg hx]
+  exact ⟨by omega, by simpa using Nat.log2_self_le hx⟩
+
+theorem wordSizeV_zero (w : Nat) : wordSizeV w 0 = 0 := by
+  unfold wordSizeV bitSizeV
+  rcases Nat.eq_zero_or_pos w with h | h
+  · subst h; simp
+  · simp only [if_true, Nat.zero_add]
+    exact Nat.div_eq_of_lt (by omega)
+
+theorem wordSizeV_lt (w x : Nat) (hw : 0 < w) : x < 2 ^ (w * wordSizeV w x) := by
+  have h1 := bitSizeV_lt x
+  have h2 := Nat.lt_mul_div_succ (bitSizeV x + w - 1) hw
+  rw [Nat.mul_succ] at h2
+  have : bitSizeV x ≤ w * wordSizeV w x := by unfold wordSizeV; omega
+  exact Nat.lt_of_lt_of_le h1 (Nat.pow_le_pow_right (by omega) this)
+
+theorem wordSizeV_ge (w x : Nat) (hw : 0 < w) (hx : x ≠ 0) :
+    1 ≤ wordSizeV w x ∧ 2 ^ (w * (wordSizeV w x - 1)) ≤ x := by
+  obtain ⟨h1, h2⟩ := bitSizeV_ge x hx
+  have h3 := Nat.mul_div_le (bitSizeV x + w - 1) w
+  have h4 : 1 ≤ wordSizeV w x := by
+    unfold wordSizeV
+    exact (Nat.le_div_iff_mul_le hw).2 (by omega)
+  refine ⟨h4, Nat.le_trans (Nat.pow_le_pow_right (by omega) ?_) h2⟩
+  have : w * (wordSizeV w x - 1) = w * wordSizeV w x - w := by
+    rw [Nat.mul_sub, Nat.mul_one]
+  rw [this]
+  unfold wordSizeV
+  omega
+
+theorem wordSizeV_le (w x k : Nat) (hw : 0 < w) (h : x < 2 ^ (w * k)) : wordSizeV w x ≤ k := by
+  rcases Nat.eq_zero_or_pos x with hx | hx
+  · subst hx; rw [wordSizeV_zero]; omega
+  · obtain ⟨h1, h2⟩ := wordSizeV_ge w x hw (by omega)
+    by_contra hc
+    have : w * k ≤ w * (wordSizeV w x - 1) := Nat.mul_le_mul_left _ (by omega)
+    have := Nat.pow_le_pow_right (show 0 < 2 by omega) this
+    omega
+
+/-- one Newton step from above stays above the root -/
+theorem newton_ge (a b s : Nat) (hb : 0 < b) (hs : s * s ≤ a) : s ≤ (b + a / b) / 2 := by
+  by_contra hc
+  have h1 : b + a / b + 1 ≤ 2 * s := by omega
+  have h2 : a < b * (a / b + 1) := Nat.lt_mul_div_succ a hb
+  have h3 := Nat.mul_le_mul_left b h1
+  zify at *
+  nlinarith [sq_nonneg ((s : ℤ) - b)]
+
+/-- `b ≥ √a` and `a / b ≥ b + 1`, or `a/b = b`: then b is the root -/
+theorem root_of_quot_ge (a b : Nat) (_hb : 0 < b) (hab : a < (b + 1) * (b + 1)) (hq : b ≤ a / b) :
+    b = Nat.sqrt a := by
+  rw [Nat.eq_sqrt]
+  refine ⟨?_, hab⟩
+  calc b * b ≤ b * (a / b) := Nat.mul_le_mul_left _ hq
+    _ ≤ a := Nat.mul_div_le a b
+
+theorem not_square_of_quot_gt (a b : Nat) (hb : 0 < b) (hq : b < a / b) : b * b ≠ a := by
+  have : b * (b + 1) ≤ a := calc
+    b * (b + 1) ≤ b * (a / b) := Nat.mul_le_mul_left _ hq
+    _ ≤ a := Nat.mul_div_le a b
+  have : b * b < b * (b + 1) := Nat.mul_lt_mul_of_pos_left (by omega) hb
+  omega
+
+/-- the quotient fits `m + 1` words, and `m` words unless `n = 2 m` -/
+theorem quot_bound (w a b m n : Nat) (_hm : 1 ≤ m) (hbl : 2 ^ (w * (m - 1)) ≤ b)
+    (ha : a < 2 ^ (w * n)) (k : Nat) (hn : n ≤ m - 1 + k) : a / b < 2 ^ (w * k) := by
+  have hb : 0 < b := Nat.lt_of_lt_of_le (Nat.two_pow_pos _) hbl
+  rw [Nat.div_lt_iff_lt_mul hb]
+  calc a < 2 ^ (w * n) := ha
+    _ ≤ 2 ^ (w * (m - 1 + k)) := Nat.pow_le_pow_right (by omega) (Nat.mul_le_mul_left _ hn)
+    _ = 2 ^ (w * k) * 2 ^ (w * (m - 1)) := by rw [← Nat.pow_add]; congr 1; ring
+    _ ≤ 2 ^ (w * k) * b := Nat.mul_le_mul_left _ hbl
+
+theorem zzSqrtLoop_spec (w a : Nat) (hw : 0 < w) (ha : a ≠ 0) :
+    ∀ (f t m : Nat), a < (t + 1) * (t + 1) → t < 2 ^ (w * m) → t < f →
+      (zzSqrtLoop w a (wordSizeV w a) f t m).1 = Nat.sqrt a
+      ∧ ((zzSqrtLoop w a (wordSizeV w a) f t m).2 = true ↔ Nat.sqrt a * Nat.sqrt a = a) := by
+  intro f
+  induction f with
+  | zero => intro t m _ _ h; omega
+  | succ f ih =>
+    intro t m hta htm htf
+    unfold zzSqrtLoop
+    simp only []
+    rw [Nat.mod_eq_of_lt htm]
+    have ht0 : t ≠ 0 := by
+      rintro rfl
+      simp at hta; omega
+    obtain ⟨hm1, hbl⟩ := wordSizeV_ge w t hw ht0
+    have hbu := wordSizeV_lt w t hw
+    generalize wordSizeV w t = m' at *
+    have han := wordSizeV_lt w a hw
+    -- n ≤ 2 m'
+    have hn2 : wordSizeV w a ≤ 2 * m' := by
+      apply wordSizeV_le w a _ hw
+      calc a < (t + 1) * (t + 1) := hta
+        _ ≤ 2 ^ (w * m') * 2 ^ (w * m') := Nat.mul_le_mul hbu hbu
+        _ = 2 ^ (w * (2 * m')) := by rw [← Nat.pow_add]; congr 1; ring
+    generalize wordSizeV w a = n at *
+    have htpos : 0 < t := by omega
+    have hq1 : a / t < 2 ^ (w * (m' + 1)) := quot_bound w a t m' n hm1 hbl han (m' + 1) (by omega)
+    by_cases hc1 : n - m' = m' ∧ a / t / 2 ^ (w * m') % 2 ^ w > 0
+    · rw [if_pos hc1]
+      have hge : 2 ^ (w * m') ≤ a / t := by
+        by_contra h
+        rw [Nat.div_eq_of_lt (by omega)] at hc1
+        simp at hc1
+      have hlt : t < a / t := by omega
+      have hr := root_of_quot_ge a t htpos hta (by omega)
+      refine ⟨hr, ?_⟩
+      simp only [Bool.false_eq_true, false_iff]
+      rw [← hr]
+      exact not_square_of_quot_gt a t htpos hlt
+    · rw [if_neg hc1]
+      have hq : a / t < 2 ^ (w * m') := by
+        by_cases hnm : n - m' = m'
+        · have h0 : a / t / 2 ^ (w * m') % 2 ^ w = 0 := by
+            by_contra h
+            exact hc1 ⟨hnm, by omega⟩
+          have h2 : a / t / 2 ^ (w * m') < 2 ^ w := by
+            rw [Nat.div_lt_iff_lt_mul (Nat.two_pow_pos _), ← Nat.pow_add]
+            have : w + w * m' = w * (m' + 1) := by ring
+            rw [this]; exact hq1
+          rw [Nat.mod_eq_of_lt h2] at h0
+          by_contra h
+          have : 1 ≤ a / t / 2 ^ (w * m') := (Nat.le_div_iff_mul_le (Nat.two_pow_pos _)).2 (by omega)
+          omega
+        · exact quot_bound w a t m' n hm1 hbl han m' (by omega)
+      rw [Nat.mod_eq_of_lt hq]
+      by_cases hc2 : t = a / t
+      · rw [if_pos hc2]
+        have hr := root_of_quot_ge a t htpos hta (by omega)
+        refine ⟨hr, ?_⟩
+        rw [← hr]
+        have hdm := Nat.div_add_mod a t
+        rw [← hc2] at hdm
+        simp only [decide_eq_true_eq]
+        constructor <;> intro h <;> omega
+      · rw [if_neg hc2]
+        by_cases hc3 : t < a / t
+        · rw [if_pos hc3]
+          have hr := root_of_quot_ge a t htpos hta (by omega)
+          refine ⟨hr, ?_⟩
+          simp only [Bool.false_eq_true, false_iff]
+          rw [← hr]
+          exact not_square_of_quot_gt a t htpos hc3
+        · rw [if_neg hc3]
+          have hng := newton_ge a t (Nat.sqrt a) htpos (Nat.sqrt_le a)
+          have hlt' : (a / t + t) / 2 < t := by omega
+          apply ih
+          · have h1 : Nat.sqrt a + 1 ≤ (a / t + t) / 2 + 1 := by omega
+            calc a < (Nat.sqrt a + 1) * (Nat.sqrt a + 1) := Nat.lt_succ_sqrt a
+              _ ≤ _ := Nat.mul_le_mul h1 h1
+          · omega
+          · omega
+
+theorem zzSqrtV_spec' (w n a : Nat) (hw : 0 < w) (ha : a < 2 ^ (w * n)) :
+    (zzSqrtV w n a).1 = Nat.sqrt a
+      ∧ ((zzSqrtV w n a).2 = true ↔ Nat.sqrt a * Nat.sqrt a = a) := by
+  unfold zzSqrtV
+  simp only []
+  by_cases h0 : wordSizeV w a = 0
+  · rw [if_pos h0]
+    have := wordSizeV_lt w a hw
+    rw [h0] at this
+    have ha0 : a = 0 := by simpa using this
+    subst ha0
+    simp
+  · rw [if_neg h0]
+    have ha0 : a ≠ 0 := by
+      rintro rfl
+      exact h0 (wordSizeV_zero w)
+    -- the start value is 2^k - 1 and fits m words
+    have hL : bitSizeV a ≤ w * n := by
+      by_contra h
+      obtain ⟨_, h2⟩ := bitSizeV_ge a ha0
+      have := Nat.pow_le_pow_right (show 0 < 2 by omega) (show w * n ≤ bitSizeV a - 1 by omega)
+      omega
+    have hmm : w * n ≤ 2 * (w * ((n + 1) / 2)) := by
+      rw [← Nat.mul_assoc, Nat.mul_comm 2 w, Nat.mul_assoc]
+      exact Nat.mul_le_mul_left _ (by omega)
+    have hk : (bitSizeV a + 1) / 2 ≤ w * ((n + 1) / 2) := by omega
+    have hk2 : bitSizeV a ≤ 2 * ((bitSizeV a + 1) / 2) := by omega
+    generalize (bitSizeV a + 1) / 2 = k at *
+    have hp1 : 2 ^ k ≤ 2 ^ (w * ((n + 1) / 2)) := Nat.pow_le_pow_right (by omega) hk
+    have hp2 : 2 ^ (w * ((n + 1) / 2)) < 2 ^ (w * ((n + 1) / 2 + 1)) :=
+      Nat.pow_lt_pow_right (by omega) (by rw [Nat.mul_succ]; omega)
+    have hkpos := Nat.two_pow_pos k
+    have e1 : 2 ^ k % 2 ^ (w * ((n + 1) / 2 + 1)) = 2 ^ k := Nat.mod_eq_of_lt (by omega)
+    have e2 : (2 ^ k + 2 ^ (w * ((n + 1) / 2 + 1)) - 1) % 2 ^ (w * ((n + 1) / 2 + 1)) = 2 ^ k - 1 := by
+      have : 2 ^ k + 2 ^ (w * ((n + 1) / 2 + 1)) - 1 = (2 ^ k - 1) + 2 ^ (w * ((n + 1) / 2 + 1)) := by
+        omega
+      rw [this, Nat.add_mod_right]
+      exact Nat.mod_eq_of_lt (by omega)
+    rw [e1, e2]
+    apply zzSqrtLoop_spec w a hw ha0
+    · have h1 := bitSizeV_lt a
+      have h2 : 2 ^ bitSizeV a ≤ 2 ^ (2 * k) := Nat.pow_le_pow_right (by omega) hk2
+      have h3 : 2 ^ (2 * k) = 2 ^ k * 2 ^ k := by rw [← Nat.pow_add]; congr 1; ring
+      have h4 : 2 ^ k - 1 + 1 = 2 ^ k := by omega
+      rw [h4]; omega
+    · omega
+    · omega
 
 end Bee2V.C05.Etc
